@@ -68,6 +68,20 @@ func (c11) Gen(r *rand.Rand, tier string, run int) *core.Case {
 		c.Ops = []core.Op{{Kind: "scenario", X: int64(block / 10 % 4)}}
 		return c
 	}
+	if block%10 == 3 {
+		// a block in which the peer dies after exactly N more bytes have
+		// reached the client, N = 0, 1, 2, ... from the start of the scenario
+		// body: every byte position of the incoming replies and events,
+		// header / payload boundaries included; clean EOF and reset alternate
+		delete(c.Params, "app_close")
+		c.Params["scenario"] = block / 10 % 4
+		c.Params["cut"] = 1 + j/2
+		c.Params["cut_reset"] = j % 2
+		c.Params["fault_op"] = -4
+		c.Batch = fmt.Sprintf("scenario-%c-cut-at-byte", 'a'+block/10%4)
+		c.Ops = []core.Op{{Kind: "scenario", X: int64(block / 10 % 4)}}
+		return c
+	}
 	c.Batch = fmt.Sprintf("scenario-%c", 'a'+block%4)
 	if c.Params["app_close"] == 1 {
 		c.Params["fault_op"] = -2
@@ -192,6 +206,9 @@ func (c11) Run(c *core.Case, env *core.Env) {
 			}
 			<-done
 		} else {
+			if n := c.P("cut", 0); n > 0 {
+				env.NW.Conns()[0].CutIncomingAfter(n-1, c.P("cut_reset", 0) == 1)
+			}
 			c11body(c, env, st, w, p, func() {})
 		}
 	}
@@ -292,7 +309,7 @@ func (c11) Check(c *core.Case, env *core.Env, res zzsim.Result, v *core.Verdict)
 	}
 	fired := 0
 	firedKind := ""
-	for _, k := range c11kinds {
+	for _, k := range append(append([]string(nil), c11kinds...), simnet.FCut) {
 		if v.Fired[k] > 0 {
 			fired += v.Fired[k]
 			firedKind = k
@@ -317,6 +334,13 @@ func (c11) Check(c *core.Case, env *core.Env, res zzsim.Result, v *core.Verdict)
 		where = fmt.Sprintf("the application closed the client's endpoint at %d", appClose)
 		if st.lossKind != "" {
 			where = fmt.Sprintf("%s at %d (the server had stopped reading)", st.lossKind, appClose)
+		}
+	}
+	if n := c.P("cut", 0); n > 0 {
+		where = fmt.Sprintf("the incoming stream ends (reset=%d) after %d more bytes from the start of the scenario body", c.P("cut_reset", 0), n-1)
+		if fired == 0 {
+			where += " (never reached)"
+			env.Probe("plan-not-reached")
 		}
 	}
 	if len(c.Plan) > 0 {
